@@ -1054,7 +1054,8 @@ Section BuildProofs.
     exists acts,
       assignments_to_actions f fixed (widths_of (S1 stmts) (T3 (S1 stmts) consts) consts) consts
                              (s_assigns (S1 stmts))
-                             (all_out_names (t_banks (T3 (S1 stmts) consts)) ++ map fst consts)
+                             (all_out_names (t_banks (T3 (S1 stmts) consts)) ++
+                              t_defaulted (T3 (S1 stmts) consts) ++ map fst consts)
                              (s_decls (S1 stmts)) = Ok acts /\
       p = mkProgram consts acts (t_banks (T3 (S1 stmts) consts)) (t_defaulted (T3 (S1 stmts) consts))
                     (t_types (T3 (S1 stmts) consts)).
@@ -1074,7 +1075,7 @@ Section BuildProofs.
     split; [exact E3a|]. split; [exact E3b|].
     fold (widths_of s t consts) in H.
     destruct (assignments_to_actions f fixed (widths_of s t consts) consts (s_assigns s)
-                (all_out_names (t_banks t) ++ map fst consts) (s_decls s)) as [acts|es] eqn:E4;
+                (all_out_names (t_banks t) ++ t_defaulted t ++ map fst consts) (s_decls s)) as [acts|es] eqn:E4;
       cbn [bind] in H; [|discriminate H].
     exists acts. split; [reflexivity|]. injection H as <-. reflexivity.
   Qed.
@@ -1602,6 +1603,12 @@ Section BuildProofs.
       destruct (has (s_assigns s) out_name) eqn:D4; [discriminate E4|].
       destruct (mem_str out_name (t_seen t)) eqn:D5; [discriminate E5|].
       destruct (mem_str in_name (add_set out_name (t_seen t))) eqn:D6; [discriminate E6|].
+      match goal with
+      | |- context [check ?a ?b ?c ?d] => destruct (check a b c d) as [wc|esc] eqn:Eck
+      end.
+      2:{ cbn [r_t r_sigs r_dfl fst snd t_errs t_banks t_seen]; intros He;
+          apply app_eq_nil in He; destruct He as [He _].
+          split; [exact He|]. split; [reflexivity|]. split; [reflexivity|]. left. split; reflexivity. }
       destruct (eval f (lookup consts) dflt) as [v|es] eqn:Eev;
         cbn [r_t r_sigs r_dfl fst snd t_errs t_banks t_seen]; intros He;
         apply app_eq_nil in He; destruct He as [He _].
@@ -1789,6 +1796,72 @@ Section BuildProofs.
   Proof.
     rewrite all_ins_sigs. intros H. apply in_map_iff in H. destruct H as [sg [H1 H2]].
     exists sg. split; assumption.
+  Qed.
+
+  (* the control signals left to their default: unassigned stall_X / bubble_X of a produced bank *)
+  Definition dfl_inv (s : st1) (t : st3) : Prop :=
+    forall n, In n (t_defaulted t) ->
+      has (s_assigns s) n = false /\ exists b, In b (t_banks t) /\ (n = b_stall b \/ n = b_bubble b).
+
+  Lemma step3_register_keeps s consts bn inp outp a r :
+    t_banks (r_t (step3_register f s consts bn inp outp a r)) = t_banks (r_t a) /\
+    t_defaulted (r_t (step3_register f s consts bn inp outp a r)) = t_defaulted (r_t a).
+  Proof.
+    destruct a as [[t sigs] defaults]. destruct r as [[rname w] dflt].
+    unfold step3_register. cbv beta iota zeta.
+    match goal with
+    | |- context [match ?pre with [] => _ | _ :: _ => _ end] => destruct pre as [|e0 pre0]
+    end; [|split; reflexivity].
+    match goal with
+    | |- context [check ?a ?b ?c ?d] => destruct (check a b c d) as [wc|esc]
+    end; [|split; reflexivity].
+    destruct (eval f (lookup consts) dflt) as [v|es]; split; reflexivity.
+  Qed.
+
+  Lemma step3_regs_keep s consts bn inp outp regs : forall a,
+    t_banks (r_t (fold_left (step3_register f s consts bn inp outp) regs a)) = t_banks (r_t a) /\
+    t_defaulted (r_t (fold_left (step3_register f s consts bn inp outp) regs a)) = t_defaulted (r_t a).
+  Proof.
+    induction regs as [|r regs IH]; intros a; cbn [fold_left]; [split; reflexivity|].
+    destruct (IH (step3_register f s consts bn inp outp a r)) as [I1 I2].
+    destruct (step3_register_keeps s consts bn inp outp a r) as [K1 K2].
+    rewrite I1, I2, K1, K2. split; reflexivity.
+  Qed.
+
+  Lemma step3_bank_dfl s consts t b :
+    dfl_inv s t -> dfl_inv s (step3_bank f is_lower is_upper s consts t b).
+  Proof.
+    destruct b as [name regs]. intros Hinv. unfold step3_bank. cbv beta iota.
+    destruct (utf8_chars name "") as [|inp [|outp [|x l]]]; try exact Hinv.
+    destruct (negb (is_lower inp) || negb (is_upper outp)); [exact Hinv|].
+    match goal with
+    | |- context [fold_left ?F regs ?A] =>
+        set (a0 := A); pose proof (step3_regs_keep s consts name inp outp regs a0) as Hk;
+        destruct (fold_left F regs a0) as [[t2 sigs] defaults]
+    end.
+    destruct Hk as [K1 K2]. subst a0. cbn [r_t fst t_banks t_defaulted] in K1, K2.
+    intros n Hn. cbn [t_defaulted t_banks] in *. rewrite K2 in Hn. rewrite K1.
+    apply fold_add_set_In in Hn. destruct Hn as [Hn|Hn].
+    - destruct (Hinv n Hn) as [H1 [b [Hb H2]]]. split; [exact H1|]. exists b. split; [|exact H2].
+      apply in_or_app. left. exact Hb.
+    - assert (Hcase : has (s_assigns s) n = false /\ (n = ("stall_" ++ outp)%string \/ n = ("bubble_" ++ outp)%string)).
+      { apply in_app_iff in Hn. destruct Hn as [Hn|Hn].
+        - destruct (has (s_assigns s) ("stall_" ++ outp)) eqn:E; [contradiction|].
+          destruct Hn as [<-|[]]. split; [exact E | left; reflexivity].
+        - destruct (has (s_assigns s) ("bubble_" ++ outp)) eqn:E; [contradiction|].
+          destruct Hn as [<-|[]]. split; [exact E | right; reflexivity]. }
+      destruct Hcase as [H1 H2]. split; [exact H1|].
+      exists (mkBank name sigs defaults ("stall_" ++ outp) ("bubble_" ++ outp)).
+      split; [apply in_or_app; right; left; reflexivity | exact H2].
+  Qed.
+
+  Lemma T3_defaulted s consts : dfl_inv s (T3 s consts).
+  Proof.
+    assert (H : forall banks t, dfl_inv s t ->
+              dfl_inv s (fold_left (step3_bank f is_lower is_upper s consts) banks t)).
+    { induction banks as [|b banks IH]; intros t Ht; cbn [fold_left]; [exact Ht|].
+      apply IH. apply step3_bank_dfl. exact Ht. }
+    apply H. intros n [].
   Qed.
 
   (* ---- 8 ---------------------------------------------------------------------------------- *)
@@ -2250,8 +2323,10 @@ Section BuildProofs.
     s_errs (S1 stmts) = [] -> const_assigned_errors (S1 stmts) = [] ->
     resolve_constants f (s_consts (S1 stmts)) = Ok consts ->
     t_errs (T3 (S1 stmts) consts) = [] ->
-    (forall o, In o (fixed_out_names fixed) -> bank_like o = false) ->
-    forall n, In n (all_out_names (t_banks (T3 (S1 stmts) consts)) ++ map fst consts) ->
+    (forall o, In o (fixed_out_names fixed) ->
+       bank_like o = false /\ sprefix "stall_" o = false /\ sprefix "bubble_" o = false) ->
+    forall n, In n (all_out_names (t_banks (T3 (S1 stmts) consts)) ++
+                    t_defaulted (T3 (S1 stmts) consts) ++ map fst consts) ->
       has (s_assigns (S1 stmts)) n = false /\ ~ In n (fixed_out_names fixed).
   Proof.
     intros He Hca Hrc Hte Hplain n Hn. apply in_app_iff in Hn. destruct Hn as [Hn|Hn].
@@ -2259,16 +2334,24 @@ Section BuildProofs.
       apply sig_of_out in Hn. destruct Hn as [sg [Hsg <-]].
       destruct (T3_facts _ consts Hte) as [_ [F2 _]]. rewrite Forall_forall in F2.
       apply F2 in Hsg. destruct Hsg as [S1' [_ [_ [_ [S5 _]]]]]. split; [exact S1'|].
-      intros Hin. apply Hplain in Hin. rewrite Hin in S5. discriminate S5.
-    - destruct (resolve_constants_keys _ _ Hrc) as [_ Hk]. apply Hk in Hn.
-      assert (Hc : In n (const_names stmts)) by (apply S1_consts_has; exact Hn).
-      split.
-      + destruct (has (s_assigns (S1 stmts)) n) eqn:Ea; [|reflexivity]. exfalso.
-        apply S1_assigns_has in Ea. apply S1_assigned_In in Ea.
-        rewrite (const_assigned_errors_nil _ Hca n Ea) in Hn. discriminate Hn.
-      + intros Hin. apply fixed_out_in_names in Hin.
-        destruct (S1_decls_fresh stmts He) as [_ Hf]. apply (Hf n); [|exact Hin].
-        apply In_decl_names. left. exact Hc.
+      intros Hin. apply Hplain in Hin. destruct Hin as [Hin _]. rewrite Hin in S5. discriminate S5.
+    - apply in_app_iff in Hn. destruct Hn as [Hn|Hn].
+      + destruct (T3_defaulted (S1 stmts) consts n Hn) as [H1 [b [Hb H2]]]. split; [exact H1|].
+        destruct (T3_facts _ consts Hte) as [_ [_ F3]]. rewrite Forall_forall in F3.
+        destruct (F3 b Hb) as [_ [[X [Hst Hbu]] _]].
+        intros Hin. apply Hplain in Hin. destruct Hin as [_ [P2 P3]].
+        destruct H2 as [->| ->].
+        * rewrite Hst, sprefix_stall in P2. discriminate P2.
+        * rewrite Hbu, sprefix_bubble in P3. discriminate P3.
+      + destruct (resolve_constants_keys _ _ Hrc) as [_ Hk]. apply Hk in Hn.
+        assert (Hc : In n (const_names stmts)) by (apply S1_consts_has; exact Hn).
+        split.
+        * destruct (has (s_assigns (S1 stmts)) n) eqn:Ea; [|reflexivity]. exfalso.
+          apply S1_assigns_has in Ea. apply S1_assigned_In in Ea.
+          rewrite (const_assigned_errors_nil _ Hca n Ea) in Hn. discriminate Hn.
+        * intros Hin. apply fixed_out_in_names in Hin.
+          destruct (S1_decls_fresh stmts He) as [_ Hf]. apply (Hf n); [|exact Hin].
+          apply In_decl_names. left. exact Hc.
   Qed.
 
   Lemma known0_In p k :
@@ -2298,7 +2381,7 @@ Section BuildProofs.
     destruct (build_ok_inv stmts p Hb) as [He [Hca [Hcr [consts [Hrc [Hte [Hun [acts [Hacts Hp]]]]]]]]].
     set (s := S1 stmts) in *. set (t := T3 s consts) in *.
     set (A := s_assigns s) in *.
-    set (known := all_out_names (t_banks t) ++ map fst consts) in *.
+    set (known := all_out_names (t_banks t) ++ t_defaulted t ++ map fst consts) in *.
     destruct (a2a_inv _ _ _ _ _ _ Hacts) as [g [by_out [no_out [order [sacts [Hf [Ht [Hs Hacts']]]]]]]].
     assert (HA1 : NoDup (map fst A)) by apply S1_assigns_NoDup.
     assert (HA2 : forall n, has A n = true -> ~ In n (fixed_out_names fixed)).
@@ -2306,7 +2389,7 @@ Section BuildProofs.
       apply Hfr. exact Hn. }
     assert (HK : forall n, In n known -> has A n = false /\ ~ In n (fixed_out_names fixed)).
     { apply (known_not_written stmts consts He Hca Hrc Hte).
-      intros o Ho. apply fixed_out_in_names in Ho. apply Tplain in Ho. apply Ho. }
+      intros o Ho. apply fixed_out_in_names in Ho. apply Tplain in Ho. exact Ho. }
     destruct (assign_graph_facts A known HA1) as [G1 [G2 G3]].
     destruct (preprocess_shape _ _ _ _ _ _ _ _ _ Hf) as [Hby [extra [Hno [Hsub Hex]]]].
     cbn [app] in Hno. subst no_out.
@@ -2344,7 +2427,11 @@ Section BuildProofs.
       - unfold start_wires. rewrite Hp. cbn [p_consts p_banks]. unfold known in Hn.
         apply in_app_iff in Hn. destruct Hn as [Hn|Hn].
         + apply in_or_app. right. apply in_or_app. left. exact Hn.
-        + apply in_or_app. left. exact Hn.
+        + apply in_app_iff in Hn. destruct Hn as [Hn|Hn].
+          * destruct (T3_defaulted s consts n Hn) as [_ [b0 [Hb0 H2]]].
+            apply in_or_app. right. apply in_or_app. right. apply in_or_app. right.
+            apply in_flat_map. exists b0. split; [exact Hb0|]. cbn [In]. destruct H2 as [->| ->]; auto.
+          * apply in_or_app. left. exact Hn.
       - intros a Ha Hw. destruct (HK n Hn) as [Hk1 Hk2].
         destruct (Hwr a n Ha Hw) as [Hx|Hx]; [rewrite Hx in Hk1; discriminate Hk1 | exact (Hk2 Hx)]. }
     rewrite Hpa.
@@ -2713,7 +2800,8 @@ Section BuildProofs.
     Hypothesis Hok : fixed_table_ok fixed = true.
     Variable acts : list action.
     Hypothesis Hacts : assignments_to_actions f fixed WW consts (s_assigns sS)
-                         (all_out_names bB ++ map fst consts) (s_decls sS) = Ok acts.
+                         (all_out_names bB ++ t_defaulted (T3 (S1 stmts) consts) ++ map fst consts)
+                         (s_decls sS) = Ok acts.
     Notation tT := (T3 (S1 stmts) consts).
     Notation pP := (mkProgram consts acts bB (t_defaulted tT) (t_types tT)).
 
